@@ -2957,7 +2957,7 @@ class Bytes(Parameter):
 
     @_deprecate_positional_args
     def __init__(self, default=Undefined, *, regex=Undefined, allow_None=Undefined, **kwargs):
-        super().__init__(default=default, **kwargs)
+        super().__init__(default=default, allow_None=allow_None, **kwargs)
         self.regex = regex
         self._validate(self.default)
 
